@@ -274,11 +274,20 @@ pub fn generate(seed: u64, fault_free: bool) -> DictOut {
                         if r1.is_err() {
                             break;
                         }
+                        // half of the time every third call fails: a failed call must leave no
+                        // table entry behind, so the same argument is computed again
+                        let result = Ex::List(vec![var("k"), var("calls")]);
+                        let last = if g.rng.chance(1, 2) {
+                            Ex::If(
+                                Box::new(bin(bin(var("calls"), "%", int(3)), "==", int(1))),
+                                Box::new(Ex::Throw(Box::new(Ex::Str("memo body failed".into())))),
+                                Some(Box::new(result)),
+                            )
+                        } else {
+                            result
+                        };
                         let body = Ex::Seq(
-                            vec![
-                                Ex::OpAssign(false, Box::new(lv("calls")), "+".into(), Box::new(int(1))),
-                                Ex::List(vec![var("k"), var("calls")]),
-                            ],
+                            vec![Ex::OpAssign(false, Box::new(lv("calls")), "+".into(), Box::new(int(1))), last],
                             false,
                         );
                         let r = g.push(
